@@ -267,8 +267,12 @@ func (d *Directory) GetOriginalDirectory(trim bool) (cdEntries, endOfDir []byte,
 			end.CDOffset -= uint32(delta)
 		}
 	}
-	_ = binary.Write(&weod, binary.LittleEndian, end64)
-	_ = binary.Write(&weod, binary.LittleEndian, loc64)
+	if end64.Signature != 0 {
+		_ = binary.Write(&weod, binary.LittleEndian, end64)
+	}
+	if loc64.Signature != 0 {
+		_ = binary.Write(&weod, binary.LittleEndian, loc64)
+	}
 	_ = binary.Write(&weod, binary.LittleEndian, end)
 	return wcd.Bytes(), weod.Bytes(), nil
 }
